@@ -6,6 +6,15 @@ Space   : 5 generic vertices in 2-D and 3-D with every list of <= 3 (quick, plus
           position; thorough: every rotation for plain TriMesh), 2x2 / 2x3 / 3x3 grids (uint32 triangle lists), Delaunay meshes of
           6 and 7 points (int32 triangle lists); TriMesh, ColouredTriMesh (colour = f(vertex id)) and
           TexturedTriMesh (tcoord = g(vertex id)); triangles with sorted and with mixed vertex order.
+Forms   : the same payload presented in every other argument form that the constructors / mask methods accept: the
+          triangle list as uint8 / int8 / int16 / uint16 / int32 / uint32 / int64 array, as python list / tuple / list
+          of lists, Fortran-ordered, read-only, strided view, copy=False (contiguous, read-only, strided); points as
+          float32, python list, Fortran-ordered, read-only, strided, copy=False read-only; colours / tcoords as
+          float32, uint8, single channel, strided, list, Fortran; masks as read-only / strided views, triangle masks
+          as python lists.  One aspect is varied at a time on small meshes (every mask) and on meshes large enough
+          for the index dtype to matter: 5x5, 6x6 grids, a 24-point Delaunay mesh (thorough: a 17x17 grid with 16-bit
+          triangle lists) with a structured mask family.  The reference always works in float64 / python ints on
+          the presented values.
 Ops     : every vertex mask and every triangle mask that keeps a whole triangle (state changing; thorough masks
           the *result* again), and read-only geometry letters: the static identities, four rigid motions and
           three uniform scales.
@@ -30,10 +39,26 @@ CLASSES = ["TriMesh", "ColouredTriMesh", "TexturedTriMesh"]
 PERMS = [(0, 1, 2), (1, 2, 0), (2, 0, 1), (0, 2, 1), (2, 1, 0), (1, 0, 2)]
 
 MIN_DIST = 0.8  # general-position guard: minimum pairwise vertex distance on the 5 x 5 (x 5) domain
+MIN_AREA_BIG = 0.1  # the 24-point Delaunay letter (thin triangles on the hull are part of it)
 MIN_AREA = 0.35  # ... and minimum area of every triangle that a mesh letter can contain
 TOL = 1e-10  # geometry comparisons (observed error on the unchanged tree <= 1e-13, mutant effects >= 1e-2)
 DEPTH2_MAX_POINTS = 6  # masks of a masked mesh are enumerated only below these sizes (stated bound)
 DEPTH2_MAX_TRIS = 5
+
+BIG_POINTS = 9  # meshes above these sizes get the structured mask family instead of every mask
+BIG_TRIS = 8
+HUGE_POINTS = 64  # ... and above this size the per-element mask letters address every 8th element
+
+TL_DTYPES = ["uint8", "int8", "int16", "uint16", "int32", "uint32", "int64"]
+TL_FORMS = ["tl:" + d for d in TL_DTYPES] + ["tl:list", "tl:tuple", "tl:lol", "tl:fortran", "tl:readonly", "tl:strided", "tl:nocopy", "tl:nocopy-readonly", "tl:nocopy-strided"]
+PT_FORMS = ["pt:float32", "pt:list", "pt:fortran", "pt:readonly", "pt:strided", "pt:nocopy-readonly"]
+AT_FORMS = {
+    "TriMesh": [],
+    "ColouredTriMesh": ["at:float32", "at:uint8", "at:1ch", "at:strided", "at:fortran"],
+    "TexturedTriMesh": ["at:float32", "at:list", "at:strided", "at:fortran"],
+}
+MK_FORMS = ["mk:readonly", "mk:strided", "mk:list"]
+TOL32 = 1e-3  # float32 letters (DESIGN 2.6)
 
 RIGID = ["translate", "rotate", "rotate+translate", "half-turn+translate"]
 SCALES = ["0.25", "3", "generic"]
@@ -57,15 +82,15 @@ def _tri_area(p, t):
 _PTS_CACHE = {}
 
 
-def guarded_points(n, d, seed, tris, salt):
+def guarded_points(n, d, seed, tris, salt, size=5.0):
     """n seeded points in [0.5, 5.5]^d with pairwise distance >= MIN_DIST and every triangle of `tris` of area
     >= MIN_AREA (deterministic redraw)."""
-    key = (n, d, seed, salt)
+    key = (n, d, seed, salt, size)
     if key in _PTS_CACHE:
         return _PTS_CACHE[key].copy()
     r = rs(seed, "c17", salt, n, d)
     for _ in range(20000):
-        p = 0.5 + 5.0 * r.rand(n, d)
+        p = 0.5 + size * r.rand(n, d)
         diff = p[:, None, :] - p[None, :, :]
         dist = np.sqrt((diff ** 2).sum(-1)) + np.eye(n) * 1e9
         if dist.min() < MIN_DIST:
@@ -108,8 +133,10 @@ def und_edges(t):
 class Model(object):
     """reference mesh: plain arrays and a python list of vertex-index triples"""
 
-    def __init__(self, cls, points, tris, colours=None, tcoords=None, dtype="int64"):
+    def __init__(self, cls, points, tris, colours=None, tcoords=None, dtype="int64", form="std"):
         self.cls = cls
+        self.form = form
+        self.tol = TOL32 if form == "pt:float32" else TOL
         self.points = np.array(points, dtype=float)
         self.tris = [tuple(int(v) for v in t) for t in tris]
         self.colours = None if colours is None else np.array(colours, dtype=float)
@@ -145,6 +172,7 @@ def _ref_mask(model, vmask):
         None if model.colours is None else model.colours[kept_vertices],
         None if model.tcoords is None else model.tcoords[kept_vertices],
         model.dtype,
+        model.form,
     )
     return new, kept_tris, kept_vertices
 
@@ -196,12 +224,63 @@ class C17(Check):
                         orients.append("m")
                     for o in orients:
                         out.append(("five" if fam == "five+" else fam, arg, o, cls, d))
+        # the argument-form roots (some of them on large meshes) are spread evenly over the list so that the
+        # chunks handed to the worker processes cost about the same
+        fr = self._form_roots()
+        seen_per_carrier = {}
+        order = []
+        for r in fr:
+            c = (r[0], r[1])
+            order.append(seen_per_carrier.get(c, 0))
+            seen_per_carrier[c] = order[-1] + 1
+        fr = [r for _, _, r in sorted(zip(order, range(len(fr)), fr))]
+        merged, j = [], 0
+        for i, r in enumerate(out):
+            merged.append(r)
+            while j < len(fr) and (j + 1) * len(out) <= (i + 1) * len(fr):
+                merged.append(fr[j])
+                j += 1
+        return merged + fr[j:]
+
+    def _form_carriers(self):
+        """(mesh letter, which form groups it carries)"""
+        small = [("sub", (0, 6)), ("grid", (2, 3)), ("del", 6)]
+        big = [("grid", (5, 5)), ("grid", (6, 6)), ("del", 24)]
+        return small, big
+
+    def _form_roots(self):
+        """one presentation aspect varied at a time: 6-tuples (family, arg, orientation, class, dim, form)"""
+        small, big = self._form_carriers()
+        out = []
+        for cls in CLASSES:
+            for d in (2, 3):
+                for fam, arg in small + big:
+                    is_big = (fam, arg) in big
+                    if not is_big or (fam, arg) == big[0]:
+                        # container / view / points / attribute / mask presentation does not interact with the mesh
+                        # size: small carriers and the first large one
+                        forms = TL_FORMS + PT_FORMS + AT_FORMS[cls] + MK_FORMS
+                    else:
+                        forms = ["tl:" + dt for dt in TL_DTYPES]  # the index dtype does
+                    if is_big:
+                        forms.append("std")  # the large meshes in the standard form as well
+                    for f in forms:
+                        if f == "pt:list" and cls == "ColouredTriMesh":
+                            continue  # its constructor reads points.shape: a python list is rejected by the tree
+                        out.append((fam, arg, "s", cls, d, f))
+        if self.tier != "quick":
+            # 16-bit triangle lists on more than 256 vertices
+            for cls in CLASSES:
+                for f in ("tl:int16", "tl:uint16", "tl:nocopy", "tl:strided", "std"):
+                    out.append(("grid", (17, 17), "s", cls, 3, f))
+            for f in ("tl:int16", "tl:uint16"):
+                out.append(("grid", (17, 17), "s", "TriMesh", 2, f))
         return out
 
     # ------------------------------------------------------------------------------------------ state
     def _spec_mesh(self, root):
         """(points, tris, index dtype) of a mesh letter - plain data, no menpo"""
-        fam, arg, orient, cls, d = root
+        fam, arg, orient, cls, d = root[:5]
         d = int(d)
         if fam in ("sub", "five"):
             p = guarded_points(5, d, self.seed, TRIS10, "five-vertices")
@@ -223,6 +302,10 @@ class C17(Check):
             from scipy.spatial import Delaunay
 
             n = int(arg)
+            # large Delaunay letters live on a larger domain and accept thinner (hull) triangles
+            size = 5.0 if n <= 8 else 2.2 * float(np.sqrt(n))
+            min_area = MIN_AREA if n <= 8 else MIN_AREA_BIG
+            jitter = 0.1 if n <= 8 else 0.04
             ck = ("del", n, d, self.seed)
             if ck in _PTS_CACHE:
                 return _PTS_CACHE[ck][0].copy(), list(_PTS_CACHE[ck][1]), "int32"
@@ -230,17 +313,17 @@ class C17(Check):
             # coordinates, and the letter is kept only if it still is the Delaunay triangulation of its own points
             tris = p2 = None
             for attempt in range(200):
-                base = guarded_points(n, 2, 0, [], ("delaunay-base", attempt))
+                base = guarded_points(n, 2, 0, [], ("delaunay-base", attempt), size)
                 tris = [tuple(int(v) for v in t) for t in Delaunay(base).simplices]
-                if all(_tri_area(base, t) >= MIN_AREA + 0.1 for t in tris):
+                if all(_tri_area(base, t) >= min_area * 1.3 for t in tris):
                     break
             else:
                 raise RuntimeError("no guarded Delaunay base letter")
             r = rs(self.seed, "c17", "delaunay-jitter", n)
             for attempt in range(2000):
-                p2 = base + 0.1 * (r.rand(n, 2) - 0.5)
+                p2 = base + jitter * (r.rand(n, 2) - 0.5)
                 same = set(frozenset(int(v) for v in t) for t in Delaunay(p2).simplices) == set(frozenset(t) for t in tris)
-                if same and all(_tri_area(p2, t) >= MIN_AREA for t in tris):
+                if same and all(_tri_area(p2, t) >= min_area for t in tris):
                     break
             else:
                 raise RuntimeError("no guarded Delaunay letter")
@@ -264,22 +347,103 @@ class C17(Check):
 
         return Image(rs(self.seed, "c17", "texture").rand(2, 3, 4))
 
-    def _make(self, cls, points, tris, dtype, colours, tcoords):
+    @staticmethod
+    def _strided(a):
+        """the same values as a non-contiguous view (every other column of a wider array)"""
+        a = np.asarray(a)
+        if a.ndim == 1:
+            wide = np.zeros(2 * a.shape[0], dtype=a.dtype)
+            wide[::2] = a
+            return wide[::2]
+        wide = np.zeros((a.shape[0], 2 * a.shape[1]), dtype=a.dtype)
+        wide[:, ::2] = a
+        return wide[:, ::2]
+
+    @staticmethod
+    def _readonly(a):
+        a = np.array(a, copy=True)
+        a.flags.writeable = False
+        return a
+
+    def _present(self, form, points, tris, dtype, colours, tcoords):
+        """the payload in the argument form of the letter -> (points, trilist, colours, tcoords, copy)"""
+        kind, _, what = form.partition(":")
+        tl = np.array(tris, dtype=dtype).reshape(-1, 3)
+        copy = True
+        if kind == "tl":
+            if what in TL_DTYPES:
+                tl = np.array(tris, dtype=what)
+            elif what == "list":
+                tl = [tuple(int(v) for v in t) for t in tris]
+            elif what == "tuple":
+                tl = tuple(tuple(int(v) for v in t) for t in tris)
+            elif what == "lol":
+                tl = [[int(v) for v in t] for t in tris]
+            elif what == "fortran":
+                tl = np.asfortranarray(np.array(tris, dtype="int64"))
+            elif what in ("readonly", "nocopy-readonly"):
+                tl = self._readonly(np.array(tris, dtype="int32"))
+            elif what in ("strided", "nocopy-strided"):
+                tl = self._strided(np.array(tris, dtype="int16"))
+            elif what == "nocopy":
+                tl = np.array(tris, dtype="int16")
+            else:
+                raise ValueError(form)
+            copy = not what.startswith("nocopy")
+        elif kind == "pt":
+            if what == "float32":
+                points = points.astype("float32")
+            elif what == "list":
+                points = points.tolist()
+            elif what == "fortran":
+                points = np.asfortranarray(points)
+            elif what in ("readonly", "nocopy-readonly"):
+                points = self._readonly(points)
+                copy = what == "readonly"
+            elif what == "strided":
+                points = self._strided(points)
+            else:
+                raise ValueError(form)
+        elif kind == "at":
+            if what == "float32":
+                colours, tcoords = colours.astype("float32"), tcoords.astype("float32")
+            elif what == "uint8":
+                colours = np.round(colours * 255).astype("uint8")
+            elif what == "1ch":
+                colours = colours[:, :1].copy()
+            elif what == "strided":
+                colours, tcoords = self._strided(colours), self._strided(tcoords)
+            elif what == "fortran":
+                colours, tcoords = np.asfortranarray(colours), np.asfortranarray(tcoords)
+            elif what == "list":
+                tcoords = tcoords.tolist()
+            else:
+                raise ValueError(form)
+        elif kind not in ("std", "mk"):
+            raise ValueError(form)
+        return points, tl, colours, tcoords, copy
+
+    def _make(self, cls, points, tris, dtype, colours, tcoords, form="std"):
+        """-> (live mesh, the presented points / colours / tcoords as float64 values for the reference)"""
         from menpo.shape import ColouredTriMesh, TexturedTriMesh, TriMesh
 
-        tl = np.array(tris, dtype=dtype).reshape(-1, 3)
+        points, tl, colours, tcoords, copy = self._present(form, points, tris, dtype, colours, tcoords)
+        shown = (np.array(points, dtype=float), np.array(colours, dtype=float), np.array(tcoords, dtype=float))
         if cls == "TriMesh":
-            return TriMesh(points, tl)
-        if cls == "ColouredTriMesh":
-            return ColouredTriMesh(points, tl, colours)
-        return TexturedTriMesh(points, tcoords, self._texture(), tl)
+            mesh = TriMesh(points, tl, copy=copy)
+        elif cls == "ColouredTriMesh":
+            mesh = ColouredTriMesh(points, tl, colours, copy=copy)
+        else:
+            mesh = TexturedTriMesh(points, tcoords, self._texture(), tl, copy=copy)
+        return mesh, shown
 
     def build(self, root):
         p, tris, dtype = self._spec_mesh(root)
         cls = root[3]
+        form = root[5] if len(root) > 5 else "std"
         colours, tcoords = self._attrs(p.shape[0])
-        model = Model(cls, p, tris, colours if cls == "ColouredTriMesh" else None, tcoords if cls == "TexturedTriMesh" else None, dtype)
-        mesh = self._make(cls, p.copy(), tris, dtype, colours.copy(), tcoords.copy())
+        mesh, (p, colours, tcoords) = self._make(cls, p.copy(), tris, dtype, colours.copy(), tcoords.copy(), form)
+        model = Model(cls, p, tris, colours if cls == "ColouredTriMesh" else None, tcoords if cls == "TexturedTriMesh" else None, dtype, form)
         return {"root": root, "mesh": mesh, "model": model, "texture0": observe(self._texture()) if cls == "TexturedTriMesh" else None}
 
     def canon(self, st):
@@ -295,16 +459,59 @@ class C17(Check):
         if level >= 1 and (m.n > DEPTH2_MAX_POINTS or len(m.tris) > DEPTH2_MAX_TRIS):
             return out
         n, k = m.n, len(m.tris)
-        # triangle masks first (fewer, simpler), then vertex masks; all-true first in both
-        tmasks = sorted(range(1, 2 ** k), key=lambda b: (-bin(b).count("1"), b))
+        if n > BIG_POINTS or k > BIG_TRIS:
+            tmasks, vmasks = self._structured_masks(m)
+            self.note("mask:structured-family")
+            if m.form in ("tl:uint8", "tl:int8") and n > 16 or m.form in ("tl:int16", "tl:uint16", "tl:nocopy", "tl:strided") and n > 256:
+                self.note("form:big-mesh-small-index-dtype")  # n_points^2 exceeds the range of the index dtype
+        else:
+            # triangle masks first (fewer, simpler), then vertex masks; all-true first in both
+            tmasks = sorted(range(1, 2 ** k), key=lambda b: (-bin(b).count("1"), b))
+            vmasks = sorted(range(1, 2 ** n), key=lambda b: (-bin(b).count("1"), b))
         out += [("tmask", b) for b in tmasks]
-        vmasks = sorted(range(1, 2 ** n), key=lambda b: (-bin(b).count("1"), b))
         for b in vmasks:
             if any(all((b >> v) & 1 for v in t) for t in m.tris):
                 out.append(("vmask", b))
             else:
                 self.note("vmask:not-enumerated-keeps-no-triangle")
         return out
+
+    @staticmethod
+    def _structured_masks(m):
+        """explicit mask family of a mesh too large for all 2^n masks (bit i = element i kept): all, all but one
+        element, one triangle / the closed neighbourhood of one vertex alone, index prefixes and suffixes, residue
+        classes.  Above HUGE_POINTS the per-element letters address every 8th element."""
+        n, k = m.n, len(m.tris)
+        step = 8 if n > HUGE_POINTS else 1
+        full_v, full_t = (1 << n) - 1, (1 << k) - 1
+        nb = [1 << v for v in range(n)]
+        for t in m.tris:
+            for v in t:
+                for w in t:
+                    nb[v] |= 1 << w
+        vm = [full_v]
+        vm += [full_v & ~(1 << v) for v in range(0, n, step)]
+        vm += [nb[v] for v in range(0, n, step)]
+        for i in (n // 4, n // 2, (3 * n) // 4):
+            vm += [(1 << i) - 1, full_v & ~((1 << i) - 1)]
+        for r in range(3):
+            vm.append(sum(1 << v for v in range(n) if v % 3 != r))
+        tm = [full_t]
+        tm += [full_t & ~(1 << t) for t in range(0, k, step)]
+        tm += [1 << t for t in range(0, k, step)]
+        for i in (k // 4, k // 2, (3 * k) // 4):
+            tm += [(1 << i) - 1, full_t & ~((1 << i) - 1)]
+        tm += [sum(1 << t for t in range(k) if t % 2 == r) for r in range(2)]
+
+        def uniq(seq):
+            seen, out = set(), []
+            for b in seq:
+                if b and b not in seen:
+                    seen.add(b)
+                    out.append(b)
+            return out
+
+        return uniq(tm), uniq(vm)
 
     # ------------------------------------------------------------------------------------------ step
     def apply(self, st, op, verify=True):
@@ -337,14 +544,22 @@ class C17(Check):
         new_model, kept_tris, kept_vertices = _ref_mask(model, vmask)
         orphans_before = set(range(model.n)) - model.used()
         all_true_fast = kind == "vmask" and bool(arg.all())
+        # (arg is still the plain boolean array here; it is put into the letter's argument form below)
         if all_true_fast and orphans_before:
             # [interp] an all-true vertex mask leaves no vertex without a triangle that had one: the identical
             # mesh (pre-existing orphans kept, what menpo returns) and the orphan-free mesh both satisfy the text
-            alt_model = Model(cls, model.points, model.tris, model.colours, model.tcoords, model.dtype)
+            alt_model = Model(cls, model.points, model.tris, model.colours, model.tcoords, model.dtype, model.form)
         else:
             alt_model = None
         arg_before = arg.copy()
+        if model.form == "mk:readonly":
+            arg = self._readonly(arg)
+        elif model.form == "mk:strided":
+            arg = self._strided(arg)
+        elif model.form == "mk:list" and kind == "tmask":
+            arg = [bool(v) for v in arg]
         if verify:
+            self.note("form:%s:mask" % model.form)
             # warm the receiver up: every geometry / edge / boundary query is asked of the source mesh first, so anything
             # memoised on it has been filled before the mask is taken (a masked mesh must not inherit it)
             pre, _ = self._static(mesh, model, where_suffix="/before-mask")
@@ -360,15 +575,15 @@ class C17(Check):
         if exc is not None:
             if not verify:
                 raise exc
-            return [Failure(where, "raised", "mask %s of a mesh with %d points, triangles %r: %s: %s" % (arg.astype(int).tolist(), model.n, model.tris, type(exc).__name__, exc))]
+            return [Failure(where, "raised", "mask %s (form %s) of a mesh with %d points, triangles %r: %s: %s" % (arg_before.astype(int).tolist(), model.form, model.n, model.tris, type(exc).__name__, exc))]
         fails = []
         chosen = new_model
         if verify:
-            n_kept_sel = int(arg.sum())
+            n_kept_sel = int(arg_before.sum())
             if kind == "vmask":
                 tag = "all-true" if all_true_fast else ("orphans-dropped" if len(kept_vertices) < n_kept_sel else "no-orphans")
             else:
-                tag = "all-true" if arg.all() else "partial"
+                tag = "all-true" if arg_before.all() else "partial"
                 if len(kept_tris) > n_kept_sel:
                     tag += "-unselected-triangle-kept"
                 if orphans_before:
@@ -376,8 +591,8 @@ class C17(Check):
             self.note("%s:%s" % (kind, tag))
             if len(kept_tris) == len(model.tris) and not all_true_fast and kind == "vmask":
                 self.note("vmask:partial-keeps-all-triangles")
-            if not np.array_equal(arg, arg_before):
-                fails.append(Failure(where, "mask-argument-changed", "mask %s became %s" % (arg_before.astype(int).tolist(), arg.astype(int).tolist())))
+            if not np.array_equal(np.asarray(arg), arg_before):
+                fails.append(Failure(where, "mask-argument-changed", "mask %s became %s" % (arg_before.astype(int).tolist(), np.asarray(arg).astype(int).tolist())))
             d = obs_diff(before, observe(mesh))
             if d is not None:
                 fails.append(Failure(where, "receiver-changed", d))
@@ -391,7 +606,7 @@ class C17(Check):
             elif alt_model is not None:
                 self.note("vmask:all-true-dropped-root-orphans")
             if f1:
-                ctx = " [mask %s on %d points, triangles %r]" % (arg.astype(int).tolist(), model.n, model.tris)
+                ctx = " [mask %s on %d points, triangles %r]" % (arg_before.astype(int).tolist(), model.n, model.tris)
                 for f in f1:
                     f.detail = (f.detail + ctx)[:2000]
                 fails.extend(f1)
@@ -447,10 +662,26 @@ class C17(Check):
 
     # ---- geometry
     def _ref_geometry(self, model):
+        cache = self.__dict__.setdefault("_geom_cache", {})
+        key = model.key()
+        if key in cache:
+            return cache[key]
+        if len(cache) > 16:
+            cache.clear()
+        g = cache[key] = {}
         p, tris = model.points, model.tris
-        g = {}
-        g["areas"] = np.array([_tri_area(p, t) for t in tris])
-        g["elen"] = np.array([np.sqrt(((p[a] - p[b]) ** 2).sum()) for t in tris for a, b in ((t[0], t[1]), (t[1], t[2]), (t[2], t[0]))])
+        T = np.array(tris, dtype=int).reshape(-1, 3)
+        A, B, C = p[T[:, 0]], p[T[:, 1]], p[T[:, 2]]
+        u, v = B - A, C - A
+        if p.shape[1] == 2:
+            g["areas"] = 0.5 * np.abs(u[:, 0] * v[:, 1] - u[:, 1] * v[:, 0])
+        else:
+            cx = u[:, 1] * v[:, 2] - u[:, 2] * v[:, 1]
+            cy = u[:, 2] * v[:, 0] - u[:, 0] * v[:, 2]
+            cz = u[:, 0] * v[:, 1] - u[:, 1] * v[:, 0]
+            g["areas"] = 0.5 * np.sqrt(cx * cx + cy * cy + cz * cz)
+        g["elen"] = np.sqrt(np.stack([((A - B) ** 2).sum(1), ((B - C) ** 2).sum(1), ((C - A) ** 2).sum(1)], axis=1)).reshape(-1)
+        g["edges3"] = np.stack([B - A, C - B, A - C], axis=1)  # (k, 3, d)
         cnt = {}
         for t in tris:
             for e in und_edges(t):
@@ -458,7 +689,8 @@ class C17(Check):
         g["edge_count"] = cnt
         g["boundary"] = np.array([any(cnt[e] == 1 for e in und_edges(t)) for t in tris], dtype=bool)
         g["uedges"] = set(cnt)
-        g["ulen"] = np.sort(np.array([np.sqrt(((p[min(e)] - p[max(e)]) ** 2).sum()) for e in cnt]))
+        ue = np.array([sorted(e) for e in cnt], dtype=int).reshape(-1, 2)
+        g["ulen"] = np.sort(np.sqrt(((p[ue[:, 0]] - p[ue[:, 1]]) ** 2).sum(1)))
         return g
 
     def _static(self, mesh, model, where_suffix=""):
@@ -467,6 +699,8 @@ class C17(Check):
         g = self._ref_geometry(model)
         k = len(model.tris)
         cls = model.cls
+        tol = model.tol
+        self.note("form:%s:geom" % model.form)
         W = lambda m: "%s/%s%s" % (m, cls, where_suffix)  # noqa
         out = {}
         # areas
@@ -477,10 +711,10 @@ class C17(Check):
         else:
             if not (a >= 0).all():
                 fails.append(Failure(W("tri_areas"), "non-negative", a.tolist()))
-            if not np.allclose(a, g["areas"], rtol=TOL, atol=TOL):
+            if not np.allclose(a, g["areas"], rtol=tol, atol=tol):
                 fails.append(Failure(W("tri_areas"), "half-cross-product", "expected %s got %s" % (g["areas"].tolist(), a.tolist())))
             ma = mesh.mean_tri_area()
-            if not abs(ma - g["areas"].mean()) <= TOL * (1 + abs(ma)):
+            if not abs(ma - g["areas"].mean()) <= tol * (1 + abs(ma)):
                 fails.append(Failure(W("mean_tri_area"), "mean", "expected %r got %r" % (g["areas"].mean(), ma)))
         # edge lengths
         el = np.asarray(mesh.edge_lengths())
@@ -490,18 +724,22 @@ class C17(Check):
         else:
             if not (el >= 0).all():
                 fails.append(Failure(W("edge_lengths"), "non-negative", el.tolist()))
-            if not np.allclose(el, g["elen"], rtol=TOL, atol=TOL):
+            if not np.allclose(el, g["elen"], rtol=tol, atol=tol):
                 fails.append(Failure(W("edge_lengths"), "euclidean-length", "expected %s got %s" % (g["elen"].tolist(), el.tolist())))
         ei = np.asarray(mesh.edge_indices())
         if ei.shape != (3 * k, 2):
             fails.append(Failure(W("edge_indices"), "shape", "expected (%d, 2) got %s" % (3 * k, ei.shape)))
         else:
-            for i, t in enumerate(model.tris):
-                got = sorted(sorted(int(v) for v in row) for row in ei[3 * i : 3 * i + 3])
-                want = sorted(sorted(e) for e in und_edges(t))
-                if got != want:
-                    fails.append(Failure(W("edge_indices"), "triangle-edges", "triangle %r: expected %r got %r" % (t, want, got)))
-                    break
+            T = np.array(model.tris, dtype=np.int64).reshape(-1, 3)
+            big = np.int64(model.n + 1)
+            pairs = np.sort(ei.astype(np.int64).reshape(k, 3, 2), axis=2)
+            got_keys = np.sort(pairs[:, :, 0] * big + pairs[:, :, 1], axis=1)
+            wp = np.sort(np.stack([T[:, [0, 1]], T[:, [1, 2]], T[:, [2, 0]]], axis=1), axis=2)
+            want_keys = np.sort(wp[:, :, 0] * big + wp[:, :, 1], axis=1)
+            bad = np.nonzero((got_keys != want_keys).any(1))[0]
+            if bad.size:
+                i = int(bad[0])
+                fails.append(Failure(W("edge_indices"), "triangle-edges", "triangle %r: expected %r got %r" % (model.tris[i], wp[i].tolist(), ei[3 * i : 3 * i + 3].tolist())))
         # unique edges
         ue = np.asarray(mesh.unique_edge_indices())
         if ue.ndim != 2 or ue.shape[1] != 2:
@@ -516,13 +754,13 @@ class C17(Check):
             else:
                 ul = np.sort(np.asarray(mesh.unique_edge_lengths()))
                 out["ulen"] = ul
-                if ul.shape != g["ulen"].shape or not (ul >= 0).all() or not np.allclose(ul, g["ulen"], rtol=TOL, atol=TOL):
+                if ul.shape != g["ulen"].shape or not (ul >= 0).all() or not np.allclose(ul, g["ulen"], rtol=tol, atol=tol):
                     fails.append(Failure(W("unique_edge_lengths"), "euclidean-length", "expected %s got %s" % (g["ulen"].tolist(), ul.tolist())))
                 uv = np.asarray(mesh.unique_edge_vectors())
-                if uv.shape != (len(got), model.d) or not np.allclose(np.sqrt((uv ** 2).sum(1)), np.asarray(mesh.unique_edge_lengths()), rtol=TOL, atol=TOL):
+                if uv.shape != (len(got), model.d) or not np.allclose(np.sqrt((uv ** 2).sum(1)), np.asarray(mesh.unique_edge_lengths()), rtol=tol, atol=tol):
                     fails.append(Failure(W("unique_edge_vectors"), "shape-or-length", "shape %s" % (uv.shape,)))
                 mel = mesh.mean_edge_length()
-                if not abs(mel - g["ulen"].mean()) <= TOL * (1 + abs(mel)):
+                if not abs(mel - g["ulen"].mean()) <= tol * (1 + abs(mel)):
                     fails.append(Failure(W("mean_edge_length"), "mean", "expected %r got %r" % (g["ulen"].mean(), mel)))
         # boundary
         try:
@@ -550,15 +788,15 @@ class C17(Check):
                 fails.append(Failure(W("tri_normals"), "shape", str(tn.shape)))
             else:
                 ln = np.sqrt((tn ** 2).sum(1))
-                if not np.allclose(ln, 1.0, rtol=0, atol=TOL):
+                if not np.allclose(ln, 1.0, rtol=0, atol=tol):
                     fails.append(Failure(W("tri_normals"), "unit", "norms %s" % ln.tolist()))
-                p = model.points
-                for i, t in enumerate(model.tris):
-                    es = np.array([p[t[1]] - p[t[0]], p[t[2]] - p[t[1]], p[t[0]] - p[t[2]]])
-                    dots = es.dot(tn[i]) / np.sqrt((es ** 2).sum(1))
-                    if not np.all(np.abs(dots) <= 1e-9):
-                        fails.append(Failure(W("tri_normals"), "perpendicular", "triangle %r normal %s: cosines with its edges %s" % (t, tn[i].tolist(), dots.tolist())))
-                        break
+                if True:
+                    es = g["edges3"]
+                    cos = np.einsum("kej,kj->ke", es, tn.astype(float)) / np.sqrt((es ** 2).sum(2))
+                    bad = np.nonzero(np.abs(cos).max(1) > (1e-9 if tol == TOL else 1e-4))[0]
+                    if bad.size:
+                        i = int(bad[0])
+                        fails.append(Failure(W("tri_normals"), "perpendicular", "triangle %r normal %s: cosines with its edges %s" % (model.tris[i], tn[i].tolist(), cos[i].tolist())))
                 vn = np.asarray(mesh.vertex_normals())
                 out["vn"] = vn
                 if vn.shape != (model.n, 3):
@@ -566,9 +804,9 @@ class C17(Check):
                 elif not fails:
                     # [interp] a unit normal exists only where the incident triangle normals do not cancel
                     acc = np.zeros((model.n, 3))
-                    for i, t in enumerate(model.tris):
-                        for v in t:
-                            acc[v] += tn[i]
+                    T = np.array(model.tris, dtype=int).reshape(-1, 3)
+                    for j in range(3):
+                        np.add.at(acc, T[:, j], tn.astype(float))
                     mag = np.sqrt((acc ** 2).sum(1))
                     used = model.used()
                     for v in range(model.n):
@@ -580,7 +818,7 @@ class C17(Check):
                             continue
                         self.note("vertex_normals:unit-required")
                         lv = float(np.sqrt((vn[v] ** 2).sum()))
-                        if abs(lv - 1.0) > TOL:
+                        if abs(lv - 1.0) > tol:
                             fails.append(Failure(W("vertex_normals"), "unit", "vertex %d has a normal of length %r" % (v, lv)))
                             break
         else:
@@ -616,9 +854,10 @@ class C17(Check):
         """a fresh mesh of the same class whose points are s * R p + t (built through the constructor)"""
         model = st["model"]
         p2 = s * model.points.dot(R.T) + t
-        m2 = Model(model.cls, p2, model.tris, model.colours, model.tcoords, model.dtype)
         colours, tcoords = self._attrs(model.n)
-        mesh2 = self._make(model.cls, p2.copy(), model.tris, model.dtype, colours, tcoords)
+        form = model.form if model.form.startswith(("tl:", "pt:")) else "std"
+        mesh2, (p2, _, _) = self._make(model.cls, p2.copy(), model.tris, model.dtype, colours, tcoords, form)
+        m2 = Model(model.cls, p2, model.tris, model.colours, model.tcoords, model.dtype, model.form)
         return mesh2, m2
 
     def _invariance(self, st, R, t, s, where_suffix, clause):
@@ -636,16 +875,17 @@ class C17(Check):
             return fails
         cls = model.cls
         scale_len = max(1.0, s) * 10.0
-        if not np.allclose(v1["areas"], s * s * v0["areas"], rtol=1e-9, atol=1e-10 * scale_len ** 2):
+        rt, at = (1e-9, 1e-10) if model.tol == TOL else (TOL32, 1e-5)
+        if not np.allclose(v1["areas"], s * s * v0["areas"], rtol=rt, atol=at * scale_len ** 2):
             fails.append(Failure("tri_areas/%s" % cls, clause, "areas %s became %s (s=%r)" % (v0["areas"].tolist(), v1["areas"].tolist(), s)))
-        if not np.allclose(v1["elen"], s * v0["elen"], rtol=1e-9, atol=1e-10 * scale_len):
+        if not np.allclose(v1["elen"], s * v0["elen"], rtol=rt, atol=at * scale_len):
             fails.append(Failure("edge_lengths/%s" % cls, clause, "lengths %s became %s (s=%r)" % (v0["elen"].tolist(), v1["elen"].tolist(), s)))
-        if not np.allclose(v1["ulen"], s * v0["ulen"], rtol=1e-9, atol=1e-10 * scale_len):
+        if not np.allclose(v1["ulen"], s * v0["ulen"], rtol=rt, atol=at * scale_len):
             fails.append(Failure("unique_edge_lengths/%s" % cls, clause, "lengths %s became %s (s=%r)" % (v0["ulen"].tolist(), v1["ulen"].tolist(), s)))
         if not np.array_equal(v0["boundary"], v1["boundary"]):
             fails.append(Failure("boundary_tri_index/%s" % cls, clause, "%s became %s" % (v0["boundary"].tolist(), v1["boundary"].tolist())))
         if model.d == 3:
-            if not np.allclose(v1["tn"], v0["tn"].dot(R.T), rtol=0, atol=1e-9):
+            if not np.allclose(v1["tn"], v0["tn"].dot(R.T), rtol=0, atol=1e-9 if model.tol == TOL else 1e-4):
                 fails.append(Failure("tri_normals/%s" % cls, "follow-rotation" if clause == "rigid-invariance" else clause, "normals %s became %s, expected %s" % (v0["tn"].tolist(), v1["tn"].tolist(), v0["tn"].dot(R.T).tolist())))
         return fails
 
@@ -688,6 +928,9 @@ class C17(Check):
             "vertex_normals:orphan-exempt",
         ]
         need += ["rigid:%s" % r for r in RIGID] + ["scale:%s" % s for s in SCALES]
+        forms = sorted(set(r[5] for r in self._form_roots()))
+        need += ["form:%s:geom" % f for f in forms] + ["form:%s:mask" % f for f in forms]
+        need += ["mask:structured-family", "form:big-mesh-small-index-dtype"]
         out = ["outcome %s never produced" % n for n in need if not notes.get(n)]
         if self.tier == "thorough" and stats.per_level.get(2, 0) == 0:
             out.append("no mask was applied to the result of a mask")
@@ -707,12 +950,19 @@ class C17(Check):
             fam[f] = fam.get(f, 0) + 1
         if "five+" in fam:
             fam["five (further rotations, TriMesh only)"] = fam.pop("five+")
-        return {"mesh_letters": fam, "classes": CLASSES, "dims": [2, 3], "roots": len(self.roots()), "rigid_letters": RIGID, "scale_letters": SCALES, "orientations": ["sorted", "mixed"]}
+        forms = {}
+        for r in self._form_roots():
+            forms[r[5]] = forms.get(r[5], 0) + 1
+        small, big = self._form_carriers()
+        fam["argument-form roots"] = len(self._form_roots())
+        return {"argument_forms": forms, "form_carriers": {"small (every mask)": [repr(c) for c in small], "large (structured masks)": [repr(c) for c in big]}, "mesh_letters": fam, "classes": CLASSES, "dims": [2, 3], "roots": len(self.roots()), "rigid_letters": RIGID, "scale_letters": SCALES, "orientations": ["sorted", "mixed"]}
 
     def assumptions(self):
         return [
             "general-position guard: pairwise vertex distance >= %.2f, every mesh triangle of area >= %.2f" % (MIN_DIST, MIN_AREA),
             "Delaunay letters: a fixed 6 / 7 point layout whose coordinates are jittered by the seed and kept only while the triangulation stays the Delaunay triangulation of the jittered points (structure never depends on the seed)",
+            "argument forms: only forms the unchanged constructors / mask methods accept are letters (excluded: float / uint64 triangle lists, integer points, list / integer masks, tuple triangle masks, list colours, list points for ColouredTriMesh, index dtypes whose maximum equals the largest vertex index); float32 points: geometry tolerance %.0e" % TOL32,
+            "meshes with more than %d points or %d triangles get the structured mask family (all, all but one element, one triangle / one closed vertex neighbourhood alone, index prefixes / suffixes, residue classes); above %d points the per-element letters address every 8th element" % (BIG_POINTS, BIG_TRIS, HUGE_POINTS),
             "masks that keep no whole triangle are outside the quantifier and are not enumerated",
             "[interp] all-true vertex mask on a mesh with pre-existing orphan vertices: the identical copy (orphans kept) and the orphan-free mesh are both accepted; every partial mask must drop them",
             "[interp] a triangle mask keeps every triangle all of whose vertices survive, i.e. also unselected triangles spanned by vertices of selected ones",
